@@ -220,6 +220,26 @@ def e2e_case(case):
                               f"answers with '{reply}' was dropped: clean PASS", {"reply": reply, "line": o.line("check_s"), "warnings": o.warnings})
             else:
                 rec.ok(cls, ident)
+        elif kind == "depth-second-contract":
+            # two contracts with a test of the same signature, both cut by --depth, run one after the other in one process
+            def mk(name, k):
+                body = e2e.arg(0) + [("PUSH", 1), "EQ", ("PUSHL", "long"), "JUMPI", "STOP", ("LABEL", "long")]
+                for _ in range(40):
+                    body += [("PUSH", 1), "POP"]
+                body += e2e.arg(0) + [("PUSH", k), "ADD", ("PUSH", k + 1), "EQ", ("PUSHL", "bad"), "JUMPI", "STOP", ("LABEL", "bad")] + e2e.panic(1)
+                return e2e.Spec(name, fns=[("check_dd(uint256)", body)])
+
+            outs = [e2e.run(mk(nm, k), depth=37) for nm, k in (("DepthA", 9), ("DepthB", 11))]
+            for nm, o in zip(("DepthA", "DepthB"), outs):
+                r = o.result("check_dd")
+                flagged = any(w in m for _, m in o.warnings for w in FLAGS)
+                if r is not None and r.exitcode == 0 and not flagged:
+                    rec.violation(cls, f"depth-warning-missing/{'first' if nm == 'DepthA' else 'later'}-contract",
+                                  f"{nm}.check_dd(uint256) has a path cut by --depth 37 with a Panic behind it (x == 1) but passes with "
+                                  "no 'incomplete execution' warning" + (" (an earlier contract printed the same text)" if nm == "DepthB" else ""),
+                                  {"contract": nm, "line": o.line("check_dd"), "warnings": o.warnings})
+                else:
+                    rec.ok(cls, f"{ident}/{nm}")
         elif kind == "setup-stuck":
             # setUp() stops on an unsupported opcode, in its own frame or inside a contract it calls
             where, = par
@@ -318,7 +338,8 @@ def main(run: common.Run):
         cases += [("invariant-loop", (K, L, d), tier) for K in (1, 3, 5) for L in (1, 2, 6) for d in (1, 2)]
         cases += [("invariant-fn-loop", (order, L), tier) for order in (("set(uint256)", "mark()"), ("mark()", "set(uint256)")) for L in (1, 2, 3)]
         cases += [("stuck-unknown-solver", (rp,), tier) for rp in ("unknown", "garbage", "empty", "exit3")]
-        cases += [("invariant-target-unsupported", (), tier), ("setup-stuck", ("own",), tier), ("setup-stuck", ("callee",), tier)]
+        cases += [("invariant-target-unsupported", (), tier), ("setup-stuck", ("own",), tier), ("setup-stuck", ("callee",), tier),
+                  ("depth-second-contract", (), tier)]
         for res in common.parallel_map(e2e_case, cases, 6):
             if res and res[0] == "error":
                 run.harness_error("worker crashed: " + res[1].strip().splitlines()[-1])
